@@ -886,7 +886,9 @@ fn main() {
             });
             if let Some(idx) = idx {
                 let again = vcommon::run_single(exe, &child_args, idx, &crash);
-                if !again.iter().any(|a| a.key == v.key) {
+                // memory damage does not fail the same way twice: any violation of the re-run case
+                // confirms; a death of the process is reported even if the case survives alone
+                if again.is_empty() && !v.key.ends_with("/crash") {
                     vcommon::machinery_error(&format!("violation {} did not reproduce on replay of case #{}", v.key, idx));
                 }
             }
